@@ -629,3 +629,17 @@ def r6_bpe_new(text):
                       lambda m: 'for %s in vt_keys_sorted_by_id(&%s) {' % (m.group(1), m.group(2)) if m.group(3) == m.group(4) else m.group(0), text)
     n += k
     return text, n
+
+
+@rule('R9_cast')
+def r9_cast(text):
+    """float casts and powi only (the float operators themselves stay native: vstd gives +,*,/ on f64 uninterpreted specs):
+       X as f64 -> vt_f64(X)   for X an identifier or a parenthesised expression with optional method calls;
+       X.powi(N) -> vt_powi(X, N)"""
+    n = 0
+    pat = re.compile(r'((?:%s|\((?:[^()]|\([^()]*\))*\))(?:\.%s\((?:[^()]|\([^()]*\))*\))*) as f64\b' % (IDENT, IDENT))
+    text, k = pat.subn(lambda m: 'vt_f64(%s)' % m.group(1), text)
+    n += k
+    text, k = re.subn(r'\b(%s)\.powi\(([0-9]+)\)' % IDENT, r'vt_powi(\1, \2)', text)
+    n += k
+    return text, n
